@@ -542,3 +542,22 @@ def trace_shrink(case):
         c = dict(case)
         c["lines"] = lines[:i] + lines[i + 1:]
         yield c
+
+
+def cert_stats():
+    """size of the certified closed system, measured on the regenerated model (for the evidence)"""
+    import subprocess
+    from . import direct
+    out = {}
+    try:
+        r = subprocess.run([direct.SEARCH, "5000000"], capture_output=True, text=True, timeout=300)
+        for l in r.stdout.splitlines():
+            if l.startswith("states "):
+                out["states"] = int(l.split()[1])
+            if l.startswith("transitions "):
+                out["transitions"] = int(l.split()[1])
+            if l.startswith("unsafe"):
+                out["model_search"] = l
+    except Exception as e:
+        out["model_search"] = "unavailable: %s" % e
+    return out
